@@ -502,6 +502,7 @@ def ask_and_judge(ctx, cases):
                  for i, case in enumerate(cases)]
     comp_answers = ctx.driver.ask(comp_reqs) if comp_reqs else []
     for i, case in enumerate(cases):
+        case["model_comp"] = comp_answers[i]
         judge(ctx, case, [answers[2 * i], answers[2 * i + 1], comp_answers[i]])
 
 
@@ -535,6 +536,54 @@ def run_cases(ctx, specs):
                 ctx.oracle_fail("not-involutive", "the added strand of %s cannot be completed again: %s %s"
                                 % (case["replay"], type(err).__name__, err), case["replay"])
     ask_and_judge(ctx, second)
+    same_object_stage(ctx, cases)
+
+
+def same_object_stage(ctx, cases):
+    """stage 3 (history on ONE object): `complement_dsDNA` is called a SECOND time on the very MetaMolecule the first
+    call returned — "complementing the added strand again recovers the original sequence".  Correspondence: the
+    model's `complement` applied to the model's own first result.  Oracle (the statement, on the implementation's
+    output): n further residues; the 2n residues present before and the edges among them are unchanged; the new
+    strand is separate; read in resid order it carries the ORIGINAL names (Lean: `C19_involutive`)."""
+    from polyply.src.gen_dna import complement_dsDNA
+    todo = []
+    for case in cases:
+        n = len(case["names"])
+        out, model = case.get("out"), case.get("model_comp")
+        if not (case["impl"]["ok"] and out is not None and len(out.nodes) == 2 * n and model and model["ok"]):
+            continue
+        before = canon_graph(out)
+        try:
+            again = complement_dsDNA(out)
+            impl = dict(ok=True, graph=canon_graph(again))
+        except Exception as err:  # pylint: disable=broad-except
+            impl = dict(ok=False, err=type(err).__name__)
+        todo.append((case, before, impl, dict(op="complement", graph=model["graph"])))
+    answers = ctx.driver.ask([t[3] for t in todo]) if todo else []
+    for (case, before, impl, _), ans in zip(todo, answers):
+        replay = dict(case["replay"], same_object_second_call=True)
+        n = len(case["names"])
+        want = dict(ok=True, graph=canon_model(ans["graph"])) if ans["ok"] else dict(ok=False)
+        ctx.correspond("complement_dsDNA-second-call-same-object", dict(ok=impl["ok"], graph=impl.get("graph")), want, replay)
+        if not impl["ok"]:
+            ctx.oracle_fail("not-involutive", "the second complement_dsDNA call on the completed molecule of %s raised %s"
+                            % (case["replay"], impl["err"]), replay)
+        else:
+            graph = impl["graph"]
+            old_keys = set(node[0] for node in before["nodes"])
+            third = [node[2] for node in sorted(graph["nodes"][2 * n:], key=lambda node: node[1])]
+            kept = graph["nodes"][:2 * n] == before["nodes"] and \
+                [e for e in graph["edges"] if e[0] in old_keys and e[1] in old_keys] == before["edges"]
+            crossing = [e for e in graph["edges"] if (e[0] in old_keys) != (e[1] in old_keys)]
+            if third != case["names"] or not kept or crossing:
+                ctx.oracle_fail("not-involutive", "complementing the added strand again (second complement_dsDNA call on "
+                                "the same molecule, input %s, names %s): the residues added are %s, the original sequence "
+                                "is %s; the 2n residues present before are %s; edges between old and new residues: %s"
+                                % (case["replay"], case["names"], third, case["names"],
+                                   "unchanged" if kept else "CHANGED", crossing), replay)
+        ctx.tally(involution_same_object_checked=True)
+        ctx.case((case["replay"]["kind"], case["replay"]["letters"], case["replay"]["label_seed"], "same-object") if n >= 2 else None,
+                 kind="second-call-same-object", n=("1" if n == 1 else "2" if n == 2 else "3-12" if n <= 12 else ">12"))
 
 
 def run(ctx):
